@@ -539,6 +539,14 @@ def run(res, tier, seed):
         add2('respparse', hx(raw[:len(raw) - len(SEP) - 2]), ('no-closing-boundary', 0))
         add2('respparse', hx(raw[:len(raw) - 1]), ('no-closing-boundary', 1))
         add2('respparse', hx(raw[:len(raw) - len(SEP)] + b'string_separator'), ('no-closing-boundary', 2))
+        # a part without its Content-Range line, or without its Content-Type line (the first part: its head is at a known place,
+        # whatever the bodies hold): a broken multipart structure, reported as an error since the repair of F74
+        mh = re.match(rb'--String_separator\r\n(Content-Type:  [^\r\n]*\r\n)(Content-Range:  bytes [^\r\n]*\r\n)\r\n', body)
+        if mh:
+            add2('respparse', hx(head + body[:mh.start(2)] + body[mh.end(2):]), ('no-part-header', b'Content-Range line of the first part removed'))
+            add2('respparse', hx(head + body[:mh.start(1)] + body[mh.end(1):]), ('no-part-header', b'Content-Type line of the first part removed'))
+            add2('respparse', hx(head + body[:mh.start(1)] + body[mh.start(2):mh.end(2)] + body[mh.start(1):mh.end(1)] + body[mh.end(2):]), ('nocheck', 'part-header lines swapped'))
+            add2('respparse', hx(head + body[:mh.start(1)] + body[mh.end(2):]), ('nocheck', 'both part-header lines removed'))
         # part header damage: differential + no panic
         for old, new in [(b'Content-Range:  bytes', b'Content-Range'), (b'Content-Range:  bytes', b'Content-Range:bytes'), (b'Content-Range:  ', b'Content-Range: \xe2\x80\x83'),
                          (b'Content-Range:  bytes', b'Content-Range: BYTES'), (b'Content-Type:  ', b'Content-Type'), (b'Content-Type:  ', b'Content-Type:'),
@@ -650,7 +658,7 @@ def run(res, tier, seed):
                 judge_roundtrip(res, ln, a, r, method.upper() if method in ('HEAD', 'OPTIONS') else method, inst)
             else:
                 res.count('read back outside the claimed class (differential only)')
-        elif kind in ('status', 'phrase', 'no-opening-boundary', 'no-blank-line', 'no-closing-boundary', 'content-length', 'must-err', 'version'):
+        elif kind in ('status', 'phrase', 'no-opening-boundary', 'no-blank-line', 'no-closing-boundary', 'no-part-header', 'content-length', 'must-err', 'version'):
             res.count('corruption ' + kind)
             if kind == 'version':
                 ok_v = m[1].decode('utf-8', 'replace').upper() in VERSIONS
